@@ -19,11 +19,21 @@ ASSUMPTIONS = ["the write log is emitted by the scripted source right before it 
                "vp/collmodel.py tracks per-endpoint write times from that log",
                "g++-12 -O1 build of the working tree with harness-side shims"]
 FLOORS = {"endpoint_checks": {"quick": 80000, "thorough": 1200000}, "quiet_cycle_checks": {"quick": 20000, "thorough": 300000},
-          "invalidations": {"quick": 20, "thorough": 300}, "probe_pairs_agree": {"quick": 5000, "thorough": 80000}}
+          "invalidations": {"quick": 20, "thorough": 300}, "probe_pairs_agree": {"quick": 5000, "thorough": 80000},
+          "window_clears": {"quick": 30, "thorough": 500}}
 BATCH = 15
 
 
 def generate(rng, tier, seed):
+    from . import gen_coll
+    gen_coll.WINDOW_CLEARS = True
+    try:
+        return _generate(rng, tier, seed)
+    finally:
+        gen_coll.WINDOW_CLEARS = False
+
+
+def _generate(rng, tier, seed):
     n = 200 if tier == "quick" else 3000
     cases = []
     for k in range(n):
@@ -65,6 +75,21 @@ def walk(node, d, t, path, out, C, parent_ticked, is_child=False):
             mech = MECH if (is_child or not node.valid()) else None
             out.append((mech, f"{path} t={t}: delta_value() is readable ({d['d']!r}) although the endpoint was not written in this cycle"
                               f"{' (its parent was)' if parent_ticked else ''}"))
+    if node.kind == "tsw" and "hasrem" in d:
+        # what fell out of the window / that it was cleared is a per-tick delta too: readable in the producing cycle only
+        C["window_delta_checks"] = C.get("window_delta_checks", 0) + 1
+        ev = node.evicted.get(t)
+        if bool(d["hasrem"]) != (ev is not None):
+            out.append((None, f"{path} t={t}: has_removed_value={d['hasrem']} (removed_value={d['remv']}) but "
+                              f"{'the push of this cycle evicted ' + str(ev) if ev is not None else 'nothing was evicted in this cycle'}"))
+        elif ev is not None and str(d["remv"]) != str(ev):
+            out.append((None, f"{path} t={t}: removed_value={d['remv']} but the value evicted in this cycle is {ev}"))
+        if bool(d["cleared"]) != (t in node.cleared_at):
+            out.append((None, f"{path} t={t}: cleared={d['cleared']} but the window was {'cleared' if t in node.cleared_at else 'not cleared'} in this cycle"))
+        if t in node.cleared_at:
+            C["window_clears"] = C.get("window_clears", 0) + 1
+        if dump_value(d) != node.value():
+            out.append((None, f"{path} t={t}: window holds {dump_value(d)} != expected {node.value()}"))
     if node.valid() and node.kind != "tsw":
         val = dump_value(d)
         if val != node.value():
